@@ -194,7 +194,7 @@ func init() {
 		ID: "C07", Engine: "csim", Pkg: "./engines/csim", Level: "exploration",
 		Runs:    map[string]int{"quick": 6000, "thorough": 300000},
 		MaxSec:  map[string]float64{"quick": 900, "thorough": 3600},
-		Prepare: prepareCsimWith("asan", "plain"),
+		Prepare: prepareCsimWith("asan", "plain", "asan_nosimd"),
 		Rule:    "one run = (payload class x length up to 60 KB incl. > 32 KiB window, reference encoder and settings: Go flate/zlib/gzip levels incl. stored and Huffman-only with flush patterns, Go lzw, system bzip2 -1..-9, system xz --format=xz|lzma presets 0-6 and 4 integrity checks) decoded under a drawn delivery schedule on the ASan or the -O2 build; oracle: status ok and output == the original payload. The simulated dimension is the delivery schedule; payload x encoder setting is plain seeded generation",
 		Real:    real, Stub: stub,
 		Assumptions: []string{"Go's compress/* writers and the system bzip2/xz binaries are correct encoders"},
